@@ -17,7 +17,7 @@ pub fn prop() -> Prop {
             "single-opening verification with an empty path is outside the generated domain (the panic-freedom clause of the property lists batch reconstruction, batch verification and expansion)",
         ],
         subs: vec![Sub::gen("faults", faults, 200, 80_000, 3_000_000), Sub::gen("malformed", malformed, 200, 400_000, 20_000_000)],
-        required: vec!["fault:leaf", "fault:index", "fault:node", "fault:batch_leaf", "fault:batch_index", "fault:batch_node", "fault:batch_short_leaves", "fault:batch_dup_index", "fault:batch_oob_index", "fault:batch_empty", "duplicated_leaves", "accepted_genuine_alternative", "malformed_past_index_map"],
+        required: vec!["fault:batch_extra_node", "fault:leaf", "fault:index", "fault:node", "fault:batch_leaf", "fault:batch_index", "fault:batch_node", "fault:batch_short_leaves", "fault:batch_dup_index", "fault:batch_oob_index", "fault:batch_empty", "duplicated_leaves", "accepted_genuine_alternative", "malformed_past_index_map"],
         required_thorough: vec![],
     }
 }
@@ -130,6 +130,16 @@ fn faults_x<X: HS>(s: &mut Src, rec: &mut Rec) -> CaseResult {
                     if !set.contains(&cand) {
                         set2[k] = cand;
                     }
+                },
+                5 if s.chance(1, 3) => {
+                    // a superfluous node: one more digest at the end of a node vector
+                    rec.class("fault:batch_extra_node");
+                    let v = s.below(proof2.nodes.len() as u64) as usize;
+                    let extra = match proof2.nodes[v].first() {
+                        Some(d) if s.bool() => *d,
+                        _ => other_digest::<X>(s, &root),
+                    };
+                    proof2.nodes[v].push(extra);
                 },
                 5 => {
                     let nonempty: Vec<usize> = (0..proof2.nodes.len()).filter(|i| !proof2.nodes[*i].is_empty()).collect();
